@@ -1,6 +1,7 @@
 import Flowdyn.Exec.Lim
 import Flowdyn.Exec.Int
 import Flowdyn.Exec.Kern
+import Flowdyn.Exec.Fvm
 
 namespace Flowdyn.Exec
 
@@ -9,6 +10,9 @@ def dispatch (line : String) : String :=
   | "lim" :: args => (handleLim args).getD "bad-op"
   | "int" :: args => (handleInt args).getD "bad-op"
   | "k" :: args => (handleKernel args).getD "bad-op"
+  | "mesh1d" :: args => (handleMesh args).getD "bad-op"
+  | "stage1d" :: args => (handleStage args).getD "bad-op"
+  | "rhs1d" :: args => (handleRhs args).getD "bad-op"
   | _ => "bad-op"
 
 partial def loop (h : IO.FS.Stream) (out : IO.FS.Stream) : IO Unit := do
